@@ -375,6 +375,7 @@ class Interp:
         self.strict = False
         self.strict_failures: list[str] = []
         self.strict_raises: list[str] = []  # raise statements reached inside callees in strict mode
+        self.consts: dict[str, V] = {}  # stubbed callables: BuiltinV("const.<name>") returns consts[name]
         from . import tensor_ops
 
         self.ops = tensor_ops
@@ -547,6 +548,9 @@ class Interp:
             return BoolV(d, (("cmp", v.d, "!="),), (("cmp", v.d, "=="),))
         if isinstance(v, TupleV):
             return BoolV(len(v.items) > 0)
+        if isinstance(v, ScopeV):
+            d = st.decide(v.length, ">")
+            return BoolV(d, (("cmp", v.length, ">"),), (("cmp", v.length, "=="),))
         if isinstance(v, StrV) and v.s is not None:
             return BoolV(bool(v.s))
         if isinstance(v, (ObjV, ParamV, TensorV, FuncV, ClassV, SemiringV, DistV)) and not isinstance(v, TensorV):
@@ -875,6 +879,14 @@ class Interp:
         elif isinstance(e, ast.Slice):
             for iv, s2 in self.ev_index(e, st, fr):
                 yield iv, s2
+        elif isinstance(e, ast.Yield):
+            if e.value is None:
+                fr.yields.append((NONE, st))
+                yield NONE, st
+            else:
+                for v, s2 in self.ev(e.value, st, fr):
+                    fr.yields.append((v, s2))
+                    yield NONE, s2
         elif isinstance(e, ast.NamedExpr):
             for v, s2 in self.ev(e.value, st, fr):
                 s2.env[e.target.id] = v
@@ -1502,6 +1514,7 @@ class Frame:
     fi: FuncInfo
     depth: int = 0
     all_raise: bool = False
+    yields: list = field(default_factory=list)  # (value, state) of every `yield` reached
 
 
 def _load(t: ast.expr) -> ast.expr:
